@@ -218,6 +218,9 @@ type updState struct {
 	rng      *gen.Rng
 	// prevLive: the live object before the step just executed (for the classification of finding D17)
 	prevLive *typed.TypedValue
+	// d17: (manager|path) pairs already attributed to finding D17 in this history; the stale ownership
+	// stays in later states until that manager acts again
+	d17 map[string]bool
 	// tainted: an earlier step of this history already hit finding D8 (pruning under an ignore
 	// configuration); the state is then inconsistent and later inconsistencies are consequences.
 	tainted bool
@@ -1577,7 +1580,14 @@ func judgeInvariantIg(o *Out, op string, c *typCtx, tr schema.TypeRef, st *updSt
 						// sets do not show empty lists, so the add-back of dangling items took the node for emptied
 						if x, ok := nodeAt(c.sc, tr, st.prevLive.AsValue().Unstructured(), p); ok && holdsEmptyList(x) {
 							sig = "owned-field-present/D17-empty-list-invisible "
+							if st.d17 == nil {
+								st.d17 = map[string]bool{}
+							}
+							st.d17[m+"|"+vx.Path(p)] = true
 						}
+					}
+					if st.d17[m+"|"+vx.Path(p)] {
+						sig = "owned-field-present/D17-empty-list-invisible "
 					}
 					o.Fail("C06", "owned-field-present", m+" owns "+vx.Path(p), sig+op, op)
 				} else {
